@@ -16,6 +16,7 @@ import (
 	authtypes "github.com/cosmos/cosmos-sdk/x/auth/types"
 	banktypes "github.com/cosmos/cosmos-sdk/x/bank/types"
 
+	erc20types "github.com/haqq-network/haqq/x/erc20/types"
 	ucdaokeeper "github.com/haqq-network/haqq/x/ucdao/keeper"
 	ucdaotypes "github.com/haqq-network/haqq/x/ucdao/types"
 
@@ -25,11 +26,13 @@ import (
 
 const (
 	Prop   = "C12"
-	liquid = "aLIQUID0"
+	liquid = "aLIQUID99" // sorts last among the denominations of the wide genesis below
 	bad    = "atest"
 )
 
 var names = []string{"A", "B", "C"}
+
+const wideGenesis = "genesis(balances,total,101 denominations)"
 
 type ledger map[string]map[string]sdkmath.Int // account name -> denom -> amount
 
@@ -76,9 +79,20 @@ func (l ledger) String() string {
 	return strings.Join(parts, " ")
 }
 
+// wideDenoms: the other liquid denominations a long-lived DAO pools (more than one page of them)
+func wideDenoms() sdk.Coins {
+	out := sdk.NewCoins()
+	for i := 0; i < 100; i++ {
+		if dn := fmt.Sprintf("aLIQUID%d", i); dn != liquid {
+			out = out.Add(sdk.NewInt64Coin(dn, 7))
+		}
+	}
+	return out
+}
+
 func newWorld() *world.World {
 	return world.New(world.Options{
-		NumAccounts: 4,
+		NumAccounts: 5,
 		ExtraCoins:  sdk.NewCoins(sdk.NewInt64Coin(liquid, 1000), sdk.NewInt64Coin(bad, 1000)),
 	})
 }
@@ -87,11 +101,13 @@ type driver struct {
 	w    *world.World
 	acct map[string]sdk.AccAddress
 	mod  sdk.AccAddress
+	// wideDepth: number of operations explored below the wide start state
+	wideDepth int
 }
 
 func newDriver() *driver {
 	w := newWorld()
-	d := &driver{w: w, acct: map[string]sdk.AccAddress{}}
+	d := &driver{w: w, acct: map[string]sdk.AccAddress{}, wideDepth: 2}
 	for i, n := range names {
 		d.acct[n] = w.Addrs[i+1] // account 0 is the genesis delegator
 	}
@@ -133,7 +149,7 @@ type opKind struct {
 // the module's InitGenesis leaves it for a genesis that lists balances - with the total given, and
 // with the total omitted (which the genesis format allows: "it will be calculated").
 func (d *driver) genesisOps(w *world.World) []engine.Op {
-	imp := func(withTotal bool) func(w *world.World, p []string, res *engine.Result) string {
+	imp := func(withTotal, wideToo bool) func(w *world.World, p []string, res *engine.Result) string {
 		return func(w *world.World, p []string, res *engine.Result) string {
 			ctx := w.Ctx()
 			bal := map[string]sdk.Coins{
@@ -149,6 +165,19 @@ func (d *driver) genesisOps(w *world.World) []engine.Op {
 				gs.Balances = append(gs.Balances, ucdaotypes.Balance{Address: d.acct[n].String(), Coins: bal[n]})
 				total = total.Add(bal[n]...)
 			}
+			if withTotal && wideToo {
+				// ... and a holder outside the fixture accounts with 99 further denominations: the recorded
+				// totals span more than one page, the alphabet's liquid denomination is the last of them
+				wide := wideDenoms()
+				if err := w.App.BankKeeper.MintCoins(ctx, erc20types.ModuleName, wide); err != nil {
+					panic(err)
+				}
+				if err := w.App.BankKeeper.SendCoinsFromModuleToModule(ctx, erc20types.ModuleName, ucdaotypes.ModuleName, wide); err != nil {
+					panic(err)
+				}
+				gs.Balances = append(gs.Balances, ucdaotypes.Balance{Address: w.Addrs[4].String(), Coins: wide})
+				total = total.Add(wide...)
+			}
 			if withTotal {
 				gs.TotalBalance = total
 			}
@@ -158,14 +187,20 @@ func (d *driver) genesisOps(w *world.World) []engine.Op {
 	}
 	return []engine.Op{
 		{Name: "genesis(empty)", Apply: func(w *world.World, p []string, res *engine.Result) string { return "ok" }},
-		{Name: "genesis(balances,total)", Apply: imp(true)},
-		{Name: "genesis(balances,total-omitted)", Apply: imp(false)},
+		{Name: "genesis(balances,total)", Apply: imp(true, false)},
+		{Name: "genesis(balances,total-omitted)", Apply: imp(false, false)},
+		{Name: wideGenesis, Apply: imp(true, true)},
 	}
 }
 
 func (d *driver) ops(w *world.World, depth int, path []string) []engine.Op {
 	if depth == 0 {
 		return d.genesisOps(w)
+	}
+	// every keeper call is quadratic in the number of pooled denominations: the wide start state is
+	// explored two operations deep (thorough: three)
+	if len(path) > 0 && path[0] == wideGenesis && depth > d.wideDepth {
+		return nil
 	}
 	var out []engine.Op
 	add := func(name string, k opKind) {
@@ -484,6 +519,9 @@ func explorer(d *driver, res *engine.Result, tier string, shard, n int) *engine.
 // Worker explores one shard.
 func Worker(shard, n int, tier string) *engine.Result {
 	d := newDriver()
+	if tier == "thorough" {
+		d.wideDepth = 3
+	}
 	res := engine.NewResult(Prop)
 	e := explorer(d, res, tier, shard, n)
 	e.Run()
@@ -507,6 +545,7 @@ func opNames(ops []engine.Op, n int) []string {
 // Replay re-executes a path on a fresh fixture and returns the signatures observed.
 func Replay(v engine.Violation) []string {
 	d := newDriver()
+	d.wideDepth = 99
 	res := engine.NewResult(Prop)
 	for i, name := range v.Path {
 		var found *engine.Op
@@ -548,7 +587,7 @@ func Run(tier string) int {
 	}
 	return engine.Finish(res, engine.Meta{
 		Property: Prop, Tier: tier, Level: "model_checking", Start: start, Replayer: Replay,
-		Rule:     "explicit-state DFS with digest dedup over {ucdao,bank} of all sequences <= depth over the alphabet (3 accounts incl. sender=recipient, 2 denoms); a case is non-trivial when a transfer succeeded, distinct by (kind, pre-ledger, self)",
+		Rule:     "explicit-state DFS with digest dedup over {ucdao,bank} of all sequences <= depth over the alphabet (3 accounts incl. sender=recipient, 2 denoms) from 4 start states (empty, imported genesis with / without the total, and an imported genesis whose DAO pools 101 denominations - more than one query page - explored 2 (thorough 3) operations deep); a case is non-trivial when a transfer succeeded, distinct by (kind, pre-ledger, self)",
 		Bounds:   map[string]any{"depth": depth, "accounts": 3, "denoms": 2, "shards": 16},
 		Alphabet: alpha,
 		Assumptions: []string{
